@@ -271,6 +271,8 @@ type c04State struct {
 	targets []c04Target
 	insts   []*plenc.Plenc
 	descs   []*plenccodec.Descriptor
+	older   [][]*plenccodec.Descriptor // per target: descriptors of the same named type with fields removed (another schema version)
+	dreads  int
 	sizes   []uintptr
 	intern  []bool  // the target has intern-tagged fields (known finding D30)
 	calls   []int64 // Unmarshal calls made on the target's instance so far
@@ -305,6 +307,14 @@ func c04Setup(c *core.Ctx) {
 			d := codec.Descriptor()
 			st.descs = append(st.descs, &d)
 		}
+		var older []*plenccodec.Descriptor
+		if d := st.descs[len(st.descs)-1]; d != nil {
+			for k := 0; k < 2; k++ {
+				o := thinDescriptor(r, *d, true)
+				older = append(older, &o)
+			}
+		}
+		st.older = append(st.older, older)
 		st.sizes = append(st.sizes, maxReachableSize(t.typ, map[reflect.Type]bool{}))
 		st.intern = append(st.intern, hasInternField(t.typ, map[reflect.Type]bool{}))
 		st.calls = append(st.calls, 0)
@@ -379,11 +389,37 @@ func (st *c04State) decodeOnce(c *core.Ctx, ti int, data []byte, what string) (v
 	return target.Elem(), err, true
 }
 
+// thinDescriptor returns a deep copy of d in which plain structs have lost some of their fields:
+// the descriptor of an earlier or later version of the same named type (type names are kept), the
+// kind of descriptor that is stored next to data and read back years later. Map entries, slices
+// and times keep their shape.
+func thinDescriptor(r *rand.Rand, d plenccodec.Descriptor, top bool) plenccodec.Descriptor {
+	out := d
+	out.Elements = nil
+	plain := d.Type == plenccodec.FieldTypeStruct && d.LogicalType == plenccodec.LogicalTypeNone
+	for i, e := range d.Elements {
+		if plain && (r.IntN(3) == 0 || (top && i == len(d.Elements)-1)) {
+			continue
+		}
+		out.Elements = append(out.Elements, thinDescriptor(r, e, false))
+	}
+	return out
+}
+
+// descOnce reads data through the target's descriptor and then through one of its other versions
 func (st *c04State) descOnce(c *core.Ctx, ti int, data []byte) bool {
-	d := st.descs[ti]
-	if d == nil {
+	if st.descs[ti] == nil {
 		return true
 	}
+	if !st.descRead(c, ti, st.descs[ti], "", data) {
+		return false
+	}
+	st.dreads++
+	k := st.dreads % len(st.older[ti])
+	return st.descRead(c, ti, st.older[ti][k], fmt.Sprintf(" (version %d of the type, fields removed)", k+1), data)
+}
+
+func (st *c04State) descRead(c *core.Ctx, ti int, d *plenccodec.Descriptor, which string, data []byte) bool {
 	t := st.targets[ti]
 	st.cur.target, st.cur.input, st.cur.what = t.name, data, "Descriptor.Read"
 	core.TheCursor.Note("Descriptor.Read target=", t.name, " input=", fmt.Sprintf("%x", head(data, 4000)))
@@ -400,9 +436,12 @@ func (st *c04State) descOnce(c *core.Ctx, ti int, data []byte) bool {
 	st.wd.Busy.Store(false)
 	st.wd.Step.Add(1)
 	c.Rec.Eval(1)
-	extra := map[string]any{"target": t.name, "input": fmt.Sprintf("%x", head(data, 4000)), "call": "Descriptor.Read"}
+	extra := map[string]any{"target": t.name, "input": fmt.Sprintf("%x", head(data, 4000)), "call": "Descriptor.Read" + which}
+	if which != "" {
+		c.Rec.Count("descriptor_reads_other_version", 1)
+	}
 	if fault != "" || pn != "" {
-		c.Rec.Violation("descriptor-panic", fmt.Sprintf("Descriptor.Read panicked / faulted on target %s, %d-byte input %s: %s%s", t.name, len(data), hexHead(data), fault, pn), extra)
+		c.Rec.Violation("descriptor-panic", fmt.Sprintf("Descriptor.Read%s panicked / faulted on target %s, %d-byte input %s: %s%s", which, t.name, len(data), hexHead(data), fault, pn), extra)
 		return false
 	}
 	if cpu > 2*time.Second {
